@@ -1,0 +1,61 @@
+//go:build verif
+
+// Verification hooks (build tag `verif`): read-only access to internal kernels for the
+// correspondence harness under /verif. Add-only; nothing here is compiled without the tag.
+
+package bpmn
+
+// VerifDistribute runs distributeFlows on n parked tokens and m outgoing flows and reports, for
+// each parked token, the slice [start, start+len) of outgoing flows it received (len < 0 means the
+// token was told to complete) and the unconditional indices it was given.
+func VerifDistribute(n, m int) (slices [][2]int, uncond [][]int) {
+	awaiting := make([]chan IAction, n)
+	for i := range awaiting {
+		awaiting[i] = make(chan IAction, 4)
+	}
+	flows := make([]*SequenceFlow, m)
+	for i := range flows {
+		flows[i] = &SequenceFlow{}
+	}
+	distributeFlows(awaiting, flows)
+	for i := range awaiting {
+		close(awaiting[i])
+		got := 0
+		for a := range awaiting[i] {
+			got++
+			if got > 1 {
+				slices = append(slices, [2]int{-2, -2}) // more than one action for one token
+				uncond = append(uncond, nil)
+				continue
+			}
+			switch act := a.(type) {
+			case flowAction:
+				start := -1
+				for k := range flows {
+					if len(act.sequenceFlows) > 0 && flows[k] == act.sequenceFlows[0] {
+						start = k
+					}
+				}
+				for k := range act.sequenceFlows {
+					if start < 0 || start+k >= m || flows[start+k] != act.sequenceFlows[k] {
+						start = -3 // not a contiguous slice of the outgoing flows
+						break
+					}
+				}
+				slices = append(slices, [2]int{start, len(act.sequenceFlows)})
+				uncond = append(uncond, append([]int{}, act.unconditionalFlows...))
+			case completeAction:
+				slices = append(slices, [2]int{0, -1})
+				uncond = append(uncond, nil)
+			default:
+				slices = append(slices, [2]int{-4, -4})
+				uncond = append(uncond, nil)
+			}
+		}
+		if got == 0 {
+			slices = append(slices, [2]int{-5, -5}) // token left without an action
+			uncond = append(uncond, nil)
+		}
+	}
+	return
+}
